@@ -55,7 +55,7 @@ def gen_case(seed, i):
         w.add_hardlink("%s/h%d" % (d, k), t)
     for k in range(rng.choice([0, 1, 2])):
         d = rng.choice(roots) + rng.choice(["", "/sub"])
-        kind = rng.choice(["file", "file", "outfile", "dir", "dangling"])
+        kind = rng.choice(["file", "file", "outfile", "outpair", "dir", "dangling"])
         if kind == "file":
             t = rng.choice(files)
             r_ = rng.random()
@@ -70,6 +70,15 @@ def gen_case(seed, i):
             outs = [e["p"] for e in w.entries if e["p"].startswith("out/")]
             if outs:
                 w.add_symlink("%s/s%d" % (d, k), "@ROOT@/" + rng.choice(outs))
+        elif kind == "outpair":
+            # two links to two different HARD LINKS of one file that lies outside the roots: with -L both
+            # names are paths of the class (one replica, two paths)
+            fam_ = rng.randint(1, nfam)
+            n_ = [e["c"]["len"] for e in w.entries if e["t"] == "f" and e["c"].get("fam") == fam_][0]
+            w.add_file("out/pair%d" % k, {"fam": fam_, "len": n_, "flips": []})
+            w.add_hardlink("out/pair%dh" % k, "out/pair%d" % k)
+            w.add_symlink("%s/s%da" % (d, k), "@ROOT@/out/pair%d" % k)
+            w.add_symlink("%s/s%db" % (rng.choice(roots), k), "@ROOT@/out/pair%dh" % k)
         elif kind == "dir":
             w.add_symlink("%s/sd%d" % (d, k), "@ROOT@/" + rng.choice(roots) + "/sub")
         else:
